@@ -126,6 +126,8 @@ EXTRA = {
     "IPPO": ["ent_coef", "clip_coef", "vf_coef", "gae_lambda", "update_epochs"],
 }
 INT_HPS = {"batch_size", "learn_step", "policy_freq", "update_epochs"}
+# algorithms whose learn() the harness drives (a TensorDict batch suffices); the optimizer steps are recorded
+LEARN_ALGOS = ("DQN", "Rainbow DQN", "CQN", "DDPG", "TD3", "NeuralUCB", "NeuralTS")
 
 
 def lr_names(algo):
@@ -175,7 +177,8 @@ class C06(vlib.Driver):
                 "From AgileV Require Import C06.Model C06.Check.\nClose Scope Q_scope.\nOpen Scope nat_scope.")
     rule = ("value level: (min,max,shrink,grow,dtype) x points (current value, uniform draw) incl. all boundaries "
             "(v*f == bound, v == bound, v outside, draw at/next to 0.5), and drift sequences of repeated mutate(); "
-            "agent level: (algorithm, population size, hp configuration, op list of rounds / single mutations / clones). "
+            "agent level: (algorithm, population size, hp configuration, op list of rounds / single mutations / clones / other "
+            "mutation kinds); construction with configured names that are / are not attributes. "
             "Distinct = distinct (kind, dtype or algorithm, configuration, coin outcomes and sampled names); draws that "
             "give the same coin are not counted twice. Non-trivial = some value changed or some clip fired.")
     trusted_base = ["hand-written model coq/theories/C06/Model.v (generic in the number carrier; Q instance proved, "
@@ -215,7 +218,7 @@ class C06(vlib.Driver):
         cases.append({"kind": "value", "par": {"min": 1.5, "max": 10, "shrink": 0.5, "grow": 2.0, "int": True},
                       "pts": [[2, 0.25], [3, 0.25], [8, 0.75], [1.6, 0.25]]})
         # (a3) seeded configurations
-        nval = 60 if quick else 400
+        nval = 60 if quick else 1000
         for _ in range(nval):
             par, vgen = self.random_value_par(rng)
             pts = []
@@ -223,7 +226,7 @@ class C06(vlib.Driver):
                 pts.append([vgen(), rng.choice(U_GRID) if rng.random() < 0.4 else f32(rng.random())])
             cases.append({"kind": "value", "par": par, "pts": pts})
         # (a4) drift: repeated mutate() on one object
-        nseq = 40 if quick else 300
+        nseq = 40 if quick else 500
         for _ in range(nseq):
             par, vgen = self.random_value_par(rng)
             n = rng.choice([10, 40]) if quick else rng.choice([20, 100, 300])
@@ -232,6 +235,15 @@ class C06(vlib.Driver):
             cases.append({"kind": "seq", "par": par, "v0": vgen(), "us": us})
         # (b) agent level
         cases += self.pop_cases(tier, rng)
+        # (c) _registry_init: a configured name that is not an attribute is rejected at construction
+        for algo in ALGOS:
+            good = lr_names(algo) + ["batch_size", "learn_step"] + EXTRA[algo]
+            bogus = ["does_not_exist", "LR", "learning_rate", "lr_", "batchsize"]
+            for j in range(2 if quick else 6):
+                cfg = rng.sample(good, rng.randint(1, 3))
+                if j % 2 == 0:
+                    cfg.insert(rng.randint(0, len(cfg)), rng.choice(bogus))
+                cases.append({"kind": "init", "algo": algo, "cfg": cfg})
         return cases
 
     def random_value_par(self, rng):
@@ -277,7 +289,7 @@ class C06(vlib.Driver):
     def pop_cases(self, tier, rng):
         cases = []
         quick = tier == "quick"
-        per_algo = 5 if quick else 30
+        per_algo = 5 if quick else 60
         for algo in ALGOS:
             base = lr_names(algo) + ["batch_size", "learn_step"]
             for j in range(per_algo):
@@ -299,7 +311,10 @@ class C06(vlib.Driver):
                     elif r < 0.8:
                         ops.append(["one", rng.randrange(size), self.pick_index(names, algo, rng), self.pick_u(rng)])
                     elif r < 0.9:
-                        ops.append(["other", rng.randrange(size), rng.choice(["arch", "param", "act"]), rng.randrange(1000)])
+                        if algo in LEARN_ALGOS and rng.random() < 0.5:
+                            ops.append(["learn", rng.randrange(size), rng.randrange(1000)])
+                        else:
+                            ops.append(["other", rng.randrange(size), rng.choice(["arch", "param", "act"]), rng.randrange(1000)])
                     else:
                         s = rng.randrange(size)
                         d = rng.choice([i for i in range(size) if i != s])
@@ -312,6 +327,8 @@ class C06(vlib.Driver):
             for li, ln in enumerate(lr_names(algo)):
                 bs = len(names) - 1
                 ops = [["round", [[li, 0.25], [li, 0.75]]], ["round", [[li, 0.75], [bs, 0.25]]], ["round", [[li, 0.25], [li, 0.25]]]]
+                if algo in LEARN_ALGOS:   # ... and the optimizers that learn() then steps run with the mutated rate
+                    ops = ops[:1] + [["learn", 0, 11], ["learn", 1, 12]] + ops[1:] + [["other", 0, "arch", 5], ["learn", 0, 13], ["learn", 1, 14]]
                 cases.append({"kind": "pop", "algo": algo, "size": 2, "hp": {n: default_par(n) for n in names},
                               "order": names, "ops": ops, "init": {}})
         # no configuration at all: the label is "None" and nothing changes
@@ -356,7 +373,20 @@ class C06(vlib.Driver):
             return self.run_value(case)
         if case["kind"] == "seq":
             return self.run_seq(case)
+        if case["kind"] == "init":
+            return self.run_init(case)
         return self.run_pop(case)
+
+    def run_init(self, case):
+        plain = self.build_pop({"algo": case["algo"], "size": 1, "hp": {}, "order": []})[0]
+        attrs = [n for n in case["cfg"] if hasattr(plain, n)]
+        hp = {n: default_par(n) for n in case["cfg"]}
+        try:
+            self.build_pop({"algo": case["algo"], "size": 1, "hp": hp, "order": case["cfg"]})
+            raised = None
+        except AttributeError as e:
+            raised = str(e)[:200]
+        return {"attrs": attrs, "raised": raised}
 
     @staticmethod
     def make_param(par):
@@ -456,8 +486,9 @@ class C06(vlib.Driver):
                        | {getattr(a, c.name).lr_name for a in pop for c in a.registry.optimizers})
         ncfg = len(case["order"])
         obs0 = [self.observe(a, names) for a in pop]
-        trace = []
+        trace, stepped = [], []
         for op in case["ops"]:
+            stepped.append([])
             if op[0] == "round":
                 with Scripted(perms=[d[0] for d in op[1]], rands=[d[1] for d in op[1]], nconfig=ncfg) as s:
                     pop = list(muts.mutation(pop))
@@ -466,6 +497,8 @@ class C06(vlib.Driver):
                 with Scripted(perms=[op[2]], rands=[op[3]], nconfig=ncfg) as s:
                     pop[op[1]] = muts.mutation([pop[op[1]]])[0]
                 s.assert_consumed()
+            elif op[0] == "learn":
+                stepped[-1] = self.learn_and_record(case["algo"], pop[op[1]], op[1], op[2])
             elif op[0] == "other":
                 kw = dict(no_mutation=0, architecture=0, new_layer_prob=0.5, parameters=0, activation=0, rl_hp=0, rand_seed=op[3])
                 kw[{"arch": "architecture", "param": "parameters", "act": "activation"}[op[2]]] = 1
@@ -473,7 +506,39 @@ class C06(vlib.Driver):
             else:
                 pop[op[2]] = pop[op[1]].clone(index=op[2])
             trace.append([self.observe(a, names) for a in pop])
-        return {"names": names, "obs0": obs0, "trace": trace}
+        return {"names": names, "obs0": obs0, "trace": trace, "stepped": stepped}
+
+    @staticmethod
+    def learn_and_record(algo, agent, i, seed):
+        """two learn() calls on a seeded batch; every torch optimizer step is recorded with the lr of its groups"""
+        import torch
+        from tensordict import TensorDict
+        from torch.optim.optimizer import register_optimizer_step_pre_hook
+        reg = {}
+        for j, cfg in enumerate(agent.registry.optimizers):
+            o = getattr(agent, cfg.name).optimizer
+            for oo in (o if isinstance(o, list) else [o]):
+                reg[id(oo)] = j
+        rec = []
+
+        def hook(opt, args, kwargs):
+            rec.append([i, reg.get(id(opt), 4999), [g["lr"] for g in opt.param_groups]])
+        g = torch.Generator().manual_seed(seed)
+        h = register_optimizer_step_pre_hook(hook)
+        try:
+            for _ in range(2):
+                B = int(agent.batch_size)
+                if algo in ("NeuralUCB", "NeuralTS"):
+                    td = TensorDict({"obs": torch.randn(B, 4, generator=g), "reward": torch.randn(B, 1, generator=g)}, batch_size=[B])
+                else:
+                    act = (torch.randint(0, 3, (B, 1), generator=g) if algo in ("DQN", "Rainbow DQN", "CQN")
+                           else torch.rand(B, 2, generator=g) * 2 - 1)
+                    td = TensorDict({"obs": torch.randn(B, 4, generator=g), "action": act, "reward": torch.randn(B, 1, generator=g),
+                                     "next_obs": torch.randn(B, 4, generator=g), "done": torch.zeros(B, 1)}, batch_size=[B])
+                agent.learn(td)
+        finally:
+            h.remove()
+        return rec
 
     # ---------- model term
     def coq_term(self, case, obs):
@@ -494,6 +559,10 @@ class C06(vlib.Driver):
             if ex:
                 t += f" && check_points_q {coq_param(par, coq_Q)} [{'; '.join(f'({coq_Q(v)}, {coq_Q(u)}, {coq_Q(r)})' for (v, u), r in ex)}]"
             return t
+        if case["kind"] == "init":
+            ids = {n: i for i, n in enumerate(sorted(set(case["cfg"])))}
+            return (f"check_init [{'; '.join(str(ids[n]) for n in obs['attrs'])}] [{'; '.join(str(ids[n]) for n in case['cfg'])}] "
+                    f"{coq_bool(obs['raised'] is not None)}")
         # population
         names = obs["names"]
         nid = {n: i for i, n in enumerate(names)}
@@ -517,6 +586,8 @@ class C06(vlib.Driver):
                 ops.append("Round [" + "; ".join(f"({k}, {cf(u)})" for k, u in op[1]) + "]")
             elif op[0] == "one":
                 ops.append(f"MutOne {op[1]} {op[2]} {cf(op[3])}")
+            elif op[0] == "learn":
+                ops.append(f"Learn {op[1]}")
             elif op[0] == "other":
                 ops.append(f"OtherMut {op[1]}")
             else:
@@ -526,7 +597,7 @@ class C06(vlib.Driver):
         ob0 = "[" + "; ".join(agent_obs(dict(o, mut=None)) for o in obs["obs0"]) + "]"
         steps = []
         unknown = set()   # individuals whose label was left by an architecture / parameter / activation mutation (not modelled)
-        for op, step in zip(case["ops"], obs["trace"]):
+        for op, step, st in zip(case["ops"], obs["trace"], obs.get("stepped") or [[] for _ in case["ops"]]):
             if op[0] == "other":
                 unknown.add(op[1])
             elif op[0] == "round":
@@ -535,7 +606,8 @@ class C06(vlib.Driver):
                 unknown.discard(op[1])
             elif op[0] == "clone":
                 (unknown.add if op[1] in unknown else unknown.discard)(op[2])
-            steps.append("[" + "; ".join(agent_obs(dict(o, mut=None) if i in unknown else o) for i, o in enumerate(step)) + "]")
+            stp = "[" + "; ".join(f"({a}, {j}, [{'; '.join(cf(x) for x in lrs)}])" for a, j, lrs in st) + "]"
+            steps.append("([" + "; ".join(agent_obs(dict(o, mut=None) if i in unknown else o) for i, o in enumerate(step)) + "], " + stp + ")")
         tr = "[" + "; ".join(steps) + "]"
         return f"check_pop {pop0} [{'; '.join(ops)}] {ob0} {tr}"
 
@@ -560,6 +632,13 @@ class C06(vlib.Driver):
     def oracle(self, case, obs):
         if case["kind"] in ("value", "seq"):
             return self.oracle_value(case, obs)
+        if case["kind"] == "init":
+            missing = [n for n in case["cfg"] if n not in obs["attrs"]]
+            if bool(missing) != (obs["raised"] is not None):
+                return [Violation("registry-init", f"init:{'accepted-unknown-hp' if missing else 'rejected-valid-config'}:{case['algo'].replace(' ', '')}",
+                                  f"configured {case['cfg']}, not attributes of the agent: {missing}; constructor "
+                                  f"{'raised ' + obs['raised'] if obs['raised'] else 'accepted the configuration'}")]
+            return []
         return self.oracle_pop(case, obs)
 
     def oracle_value(self, case, obs):
@@ -620,6 +699,17 @@ class C06(vlib.Driver):
                 return done(v, None)
         for t, (op, after) in enumerate(zip(case["ops"], obs["trace"])):
             where = f"op {t} {op[0]}"
+            for a_i, j, lrs in (obs.get("stepped") or [[] for _ in case["ops"]])[t]:
+                opts = after[a_i]["opts"]
+                if j >= len(opts):
+                    return done(Violation("steps-registered-optimizer", f"pop:stepped-unregistered-optimizer:{algo}",
+                                          f"{where}: individual {a_i}: learn() stepped an optimizer that is not (any longer) the one registered on the agent, lrs {lrs}"), t)
+                want = after[a_i]["vals"][opts[j]["lr_name"]][0]
+                if any(x != want for x in lrs):
+                    return done(Violation("lr-effective", f"pop:stepped-with-other-lr:{algo}:{opts[j]['name']}",
+                                          f"{where}: individual {a_i}: learn() stepped {opts[j]['name']} with lrs {lrs}, attribute {opts[j]['lr_name']} = {want!r}"), t)
+            if op[0] == "learn" and not (obs.get("stepped") or [[]])[t]:
+                return done(Violation("harness", f"pop:learn-did-not-step:{algo}", f"{where}: learn() performed no optimizer step"), t)
             if len(after) != len(prev):
                 return done(Violation("population", f"pop:size:{algo}", f"{where}: population has {len(after)} members, had {len(prev)}"), t)
             touched, src = {}, {}
@@ -678,6 +768,8 @@ class C06(vlib.Driver):
             c = dict(case, pts=[[v, u < 0.5] for v, u in case["pts"]])
         elif case["kind"] == "seq":
             c = dict(case, us=[u < 0.5 for u in case["us"]])
+        elif case["kind"] == "init":
+            c = case
         else:
             ops = []
             for op in case["ops"]:
@@ -693,6 +785,8 @@ class C06(vlib.Driver):
     def branches(self, case, obs):
         """(dtype / hp name, branch) of every mutation of the case"""
         out = []
+        if case["kind"] == "init":
+            return out
         if case["kind"] == "value":
             for (v, u), r in zip(case["pts"], obs["rs"]):
                 out.append(("int" if case["par"]["int"] else "float", branch(case["par"], v, u, r[0]), r[0] != v))
@@ -719,10 +813,14 @@ class C06(vlib.Driver):
         return out
 
     def nontrivial(self, case, obs):
+        if case["kind"] == "init":
+            return obs["raised"] is not None
         return any(changed or b != "scaled" for _, b, changed in self.branches(case, obs))
 
     def classify(self, case, obs):
         labs = [f"kind={case['kind']}"]
+        if case["kind"] == "init":
+            return labs + [f"algo={case['algo']}", "init=" + ("rejected" if obs["raised"] else "accepted")]
         if case["kind"] == "pop":
             labs += [f"algo={case['algo']}", f"pop-size={case['size']}", f"n-ops={len(case['ops'])}", f"built-by={case.get('build', 'create_population')}"]
             labs += [f"op={op[0]}" for op in case["ops"]]
